@@ -20,16 +20,17 @@ type Answer struct {
 // ScriptFile is a FileInput whose Read calls are answered by a script over Data.
 // After the script is exhausted it delivers the remaining data in one read and then EOF.
 type ScriptFile struct {
-	Data   []byte
-	Script []Answer
-	pos    int
-	step   int
-	Reads  int
-	Closes int
-	sticky error
-	after  int
-	rest   *Answer
-	ErrVal error // the error value delivered for non-EOF errors
+	Data     []byte
+	Script   []Answer
+	pos      int
+	step     int
+	Reads    int
+	Closes   int
+	sticky   error
+	after    int
+	rest     *Answer
+	ErrVal   error // the error value delivered for non-EOF errors
+	CloseErr error // what Close returns (nil by default)
 }
 
 type scriptErr struct{ s string }
@@ -44,7 +45,7 @@ func (f *ScriptFile) Name() string { return "input" }
 
 func (f *ScriptFile) Close() error {
 	f.Closes++
-	return nil
+	return f.CloseErr
 }
 
 func (f *ScriptFile) Read(p []byte) (int, error) {
